@@ -2082,7 +2082,7 @@ class PseudoNetCDFFile(PseudoNetCDFSelfReg, object):
                     sliceoi = []
                     for si in sliceo:
                         if np.isscalar(si):
-                            sliceoi.append([si])
+                            sliceoi.append(slice(si, (si + 1) or None))
                         elif isinstance(si, slice):
                             sliceoi.append(si)
                         else:
